@@ -134,4 +134,71 @@ static int dom_dbls(double *out) {
     }
     return n;
 }
+
+// ---- icosahedron derived from geometry: vertices = centres of the 12 res-0 pentagons
+typedef struct {
+    double x, y, z;
+} DV3;
+static DV3 dv3(LatLng g) { return (DV3){cos(g.lat) * cos(g.lng), cos(g.lat) * sin(g.lng), sin(g.lat)}; }
+static LatLng dll(DV3 v) {
+    double n = sqrt(v.x * v.x + v.y * v.y + v.z * v.z);
+    return (LatLng){asin(v.z / n), atan2(v.y, v.x)};
+}
+static double ddot(DV3 a, DV3 b) { return a.x * b.x + a.y * b.y + a.z * b.z; }
+typedef struct {
+    DV3 vert[12];
+    int nedges, nfaces;
+    int edge[30][2];
+    int face[20][3];
+    DV3 facec[20];
+} Icosa;
+static int dom_icosa(Icosa *ic) {
+    int d[15] = {0};
+    for (int i = 0; i < 12; i++) {
+        LatLng g;
+        if (cellToLatLng(spec_mk(0, SPEC_PENT_BC[i], d), &g)) return -1;
+        ic->vert[i] = dv3(g);
+    }
+    ic->nedges = ic->nfaces = 0;
+    for (int i = 0; i < 12; i++)
+        for (int j = i + 1; j < 12; j++) {
+            if (ddot(ic->vert[i], ic->vert[j]) < 0.4) continue;
+            if (ic->nedges >= 30) return -1;
+            ic->edge[ic->nedges][0] = i;
+            ic->edge[ic->nedges++][1] = j;
+            for (int k = j + 1; k < 12; k++) {
+                if (ddot(ic->vert[i], ic->vert[k]) < 0.4 || ddot(ic->vert[j], ic->vert[k]) < 0.4) continue;
+                if (ic->nfaces >= 20) return -1;
+                ic->face[ic->nfaces][0] = i, ic->face[ic->nfaces][1] = j, ic->face[ic->nfaces][2] = k;
+                DV3 m = {ic->vert[i].x + ic->vert[j].x + ic->vert[k].x, ic->vert[i].y + ic->vert[j].y + ic->vert[k].y,
+                         ic->vert[i].z + ic->vert[j].z + ic->vert[k].z};
+                double n = sqrt(ddot(m, m));
+                ic->facec[ic->nfaces++] = (DV3){m.x / n, m.y / n, m.z / n};
+            }
+        }
+    return ic->nedges == 30 && ic->nfaces == 20 ? 0 : -1;
+}
+// EDGE(r): cells containing nper points spread along each of the 30 icosahedron edges (denser near the
+// two end vertices), closed under `close` neighbour steps
+static void dom_edge(int r, int nper, int close, U64Vec *out) {
+    Icosa ic;
+    if (dom_icosa(&ic)) return;
+    U64Vec s = {0};
+    for (int e = 0; e < 30; e++) {
+        DV3 a = ic.vert[ic.edge[e][0]], b = ic.vert[ic.edge[e][1]];
+        for (int i = 0; i <= nper; i++) {
+            double t = (double)i / nper;
+            // half of the points uniformly, half concentrated near the ends (t^3 mapping)
+            if (i % 2) t = t < 0.5 ? 4 * t * t * t : 1 - 4 * (1 - t) * (1 - t) * (1 - t);
+            DV3 m = {a.x * (1 - t) + b.x * t, a.y * (1 - t) + b.y * t, a.z * (1 - t) + b.z * t};
+            LatLng g = dll(m);
+            uint64_t h;
+            if (latLngToCell(&g, r, &h) == 0) uv_push(&s, h);
+        }
+    }
+    uv_sortuniq(&s);
+    for (int k = 0; k < close; k++) dom_close1(&s);
+    for (size_t i = 0; i < s.n; i++) uv_push(out, s.v[i]);
+    uv_free(&s);
+}
 #endif
